@@ -414,7 +414,9 @@ class Effects:
                     types = self._types(t, fn, recv)
                     modelish = any(x in self.prog.classes for x in types)
                     tgt = cur if modelish else direct
-                    tgt = frozenset(o for o in tgt if not o.startswith('fresh@') or True)
+                    va = fn.node.args.vararg.arg if fn.node.args.vararg else None
+                    if va:   # the elements of *args are the real operands
+                        tgt = tgt | frozenset(o for o in cur if o == 'elem:param:' + va)
                     if tgt:
                         fe.mutations.append((n, tgt, 'augmented assignment `%s`' % src(n)[:60]))
                 # result keeps identity for mutable objects, new object for numbers
